@@ -103,6 +103,38 @@ Theorem C17_alph_monotone : forall (ldec : Z -> Z -> list Z -> option (list Z)),
 Proof. exact PrefixVp8l.alph_monotone. Qed.
 Print Assumptions C17_alph_monotone.
 
+(** Codec layer, VP8 (lossy): the boolean entropy decoder of RFC 6386
+    (Vp8.Vp8Bool, the VP8 builder's specification decoder).  It is NOT
+    prefix-monotone by itself -- beyond the data it reads zero bytes -- but every
+    literal / tree symbol decoded without raising the past-end flag is decoded
+    identically when arbitrary bytes are appended, with the flag still clear.
+    Vp8Spec.decode_yuv turns the flag into E_TRUNC; appending bytes to a frame only
+    extends its last token partition.  The frame-level statement
+    (PrefixVp8Bool.vp8_frame_prefix_full_statement) is not proved: the lifting
+    through Vp8Syntax is not done. *)
+From Webp Require Vp8.Vp8Bool Riff.PrefixVp8Bool.
+Theorem C17_vp8_bool_literal_prefix_stable_partial : forall l ext k v d1,
+  bytes_ok l -> bytes_ok ext ->
+  Vp8Bool.read_lit k (Vp8Bool.bd_init l) = (v, d1) -> Vp8Bool.bd_past d1 = false ->
+  exists d1', Vp8Bool.read_lit k (Vp8Bool.bd_init (l ++ ext)) = (v, d1') /\ Vp8Bool.bd_past d1' = false.
+Proof. exact PrefixVp8Bool.bool_literal_prefix_stable. Qed.
+Print Assumptions C17_vp8_bool_literal_prefix_stable_partial.
+
+Theorem C17_vp8_bool_tree_prefix_stable_partial :
+  forall (A : Type) (t : Vp8Bool.tree A) probs l ext a d1,
+  bytes_ok l -> bytes_ok ext -> Forall (fun p => 0 <= p <= 255) probs ->
+  Vp8Bool.read_tree t probs (Vp8Bool.bd_init l) = (a, d1) -> Vp8Bool.bd_past d1 = false ->
+  exists d1', Vp8Bool.read_tree t probs (Vp8Bool.bd_init (l ++ ext)) = (a, d1') /\ Vp8Bool.bd_past d1' = false.
+Proof. exact PrefixVp8Bool.bool_tree_prefix_stable. Qed.
+Print Assumptions C17_vp8_bool_tree_prefix_stable_partial.
+
+Theorem C17_vp8_bool_past_end_differs :
+  exists l ext k,
+    fst (Vp8Bool.read_lit k (Vp8Bool.bd_init l)) <> fst (Vp8Bool.read_lit k (Vp8Bool.bd_init (l ++ ext))) /\
+    Vp8Bool.bd_past (snd (Vp8Bool.read_lit k (Vp8Bool.bd_init l))) = true.
+Proof. exact PrefixVp8Bool.bool_past_end_differs. Qed.
+Print Assumptions C17_vp8_bool_past_end_differs.
+
 (** Pinned tree (parser before commit 86109c7, [pinned_*] definitions): the
     statement is false (finding, repaired). *)
 Theorem C17_features_prefix_refuted :
